@@ -85,3 +85,10 @@ CHECKS["C11"] = {
     "note": _NOTE + " The base clock is punctual (a due timer is delivered before time advances), whole milliseconds, timeoutThreshold > 0; localBuildExecutor's use of the clock is not covered.",
     "technique": "TLA+ reference model checked by TLC; TLC validation of real-code timelines (exhaustive small patterns + random) and of wrapper bracketing traces",
 }
+
+CHECKS["C10"] = {
+    "text": "OutputHierarchy.tla is a reference model of output_hierarchy.go as a pure function of (command, produced tree): Resolve with escape detection, ParentDirs, Expected() (declared path string, kind, executable bit, symlink target, content id), Tree well-formedness (root first, every referenced child present exactly once, parents before children, no unreferenced entries) and the Tree's denotation; TLC checks its internal consistency over every small command and tree. The real NewOutputHierarchy / CreateParentDirectories / UploadOutputs are driven directly and through the real localBuildExecutor with a fake runner, over a real virtual build directory (and a naive one on the local file system) with an in-memory CAS, for the whole small command space, every tree of a small family, and seeded random deeper cases; ActionResult and every Tree blob are decoded at wire level and TLC validates each case against Expected().",
+    "design_ref": "DESIGN.md section 3 (C10)",
+    "note": _NOTE + " Trusted: the harness' tree walk, digest->content table and Tree wire decoder. Ordering of ActionResult lists is free. Declared paths below a symlink are not judged.",
+    "technique": "TLA+ reference model + TLC validation of real-code cases (small-space enumeration + seeded random)",
+}
